@@ -57,10 +57,36 @@ def cf_cases(ctx, n):
     return out
 
 
+def burst_cases(ctx, n):
+    """k >= 2, more jobs than k, oracles in which most wake-ups collect 2-3 completions at once and every still
+    pending job is seen running at every poll (the jobs leave `queued`, so only the launch guard holds the limit)."""
+    rng = ctx.rng
+    out = []
+    for _ in range(n):
+        k = rng.choice([2, 2, 3])
+        nj = k + rng.choice([2, 3, 4])
+        shape = rng.random()
+        if shape < 0.5:
+            nodes = [dict(id=0, preds=[], split=nj)]
+        elif shape < 0.8:
+            a = rng.randint(1, nj - 1)
+            nodes = [dict(id=0, preds=[], split=a), dict(id=1, preds=[], split=nj - a)]
+        else:
+            nodes = [dict(id=i, preds=[], split=None) for i in range(min(nj, 6))]
+            nj = len(nodes)
+        steps = []
+        for _ in range(2 * nj + 4):
+            cs = [rng.randrange(nj) for _ in range(rng.choice([1, 2, 2, 3]))]
+            vis = [1 if rng.random() < 0.85 else 0 for _ in range(nj)]
+            steps.append(dict(c=cs, vis=vis))
+        out.append(dict(nodes=nodes, k=k, fail=[], oracle=steps, mode="async", burst=True))
+    return out
+
+
 def run(ctx):
-    extra = cf_cases(ctx, ctx.budget(2, 10))
+    extra = cf_cases(ctx, ctx.budget(2, 10)) + burst_cases(ctx, ctx.budget(14, 150))
     out, cases, obs, usable, bad = fakes.drive(
-        ctx, "c16", SPEC, ctx.budget(30, 300), ctx.budget(4, 40), ctx.budget(8, 300), RULE,
+        ctx, "c16", SPEC, ctx.budget(22, 300), ctx.budget(4, 40), ctx.budget(8, 300), RULE,
         "more than max_concurrent jobs launched and unfinished at some instant", force_k=True, extra_cases=extra)
     peaks = []
     for i in usable:
@@ -79,6 +105,12 @@ def run(ctx):
                 out.failures.append(Failure(case=c, observed=fakes.slim(o), expected={"peak<=": 1}, kind="spec",
                                             note="sequential loop: two bodies at once"))
     out.extra["cf_worker_measured_peaks"] = peaks
+    multi = [i for i in usable if cases[i]["mode"] == "async" and cases[i].get("k") and cases[i]["k"] >= 2
+             and any(len(s["done"]) >= 2 for s in obs[i].get("steps") or [])]
+    out.distribution["k_ge2_with_two_completions_in_one_wakeup"] = len(multi)
+    out.distribution["of_those_followed_by_a_poll_with_a_job_seen_running"] = sum(
+        1 for i in multi if any(len(s["done"]) >= 2 and any(t["vis"] for t in obs[i]["steps"][n + 1:])
+                                for n, s in enumerate(obs[i]["steps"])))
     return out
 
 
